@@ -364,10 +364,11 @@ def replay_gfmt(lead, inputs, obs):
 
 
 def harnesses(tier, seed):
+    from specs import C03_header, C03_writer
     union_check()
     # case split by branch of g_fmt; the ranges overlap and their union is every (digits, decimal point position) dtoa can return
     gf = [h_gfmt('exp_neg', -330, -4), h_gfmt('small', -3, 0), h_gfmt('plain', 1, 22), h_gfmt('exp_pos', 5, 320, 1, 8), h_gfmt('exp_pos_long', 14, 320, 9, 17)]
     return gf + [h_apr('s', 's%h', 'short', 'int', 'nondet_short', 2),
             h_apr('l', 'l%l', 'int', 'long', 'nondet_int', 4),
             h_apr('n', 'n%g', 'double', 'double', 'nondet_double', 8),
-            h_nput(), h_opcodes()]
+            h_nput(), h_opcodes()] + C03_header.harnesses() + C03_writer.harnesses()
